@@ -386,3 +386,92 @@ func isLiveIterHelper(p *core.Program, c *ssa.CallCommon) bool {
 	})
 	return found
 }
+
+// maskTest decomposes `x & K != 0`, `x & K == 0` and their negations: it returns the AND operation and whether the
+// condition is true exactly when the masked value is non-zero.
+func maskTest(cond ssa.Value) (and *ssa.BinOp, nonZeroOnTrue bool, ok bool) {
+	op, x, y, neg, isCmp := core.Compare(cond)
+	if !isCmp || (op != token.NEQ && op != token.EQL) {
+		return nil, false, false
+	}
+	if z, isZ := core.ConstInt(y); !isZ || z != 0 {
+		if z2, isZ2 := core.ConstInt(x); isZ2 && z2 == 0 {
+			x = y
+		} else {
+			return nil, false, false
+		}
+	}
+	b, isAnd := x.(*ssa.BinOp)
+	if !isAnd || b.Op != token.AND {
+		return nil, false, false
+	}
+	nz := op == token.NEQ
+	if neg {
+		nz = !nz
+	}
+	return b, nz, true
+}
+
+// ---- batch helpers: functions of the store package that are handed a *pebble.Batch do part of a mutation on behalf
+// of their caller. The rules treat their operations as the caller's, at the position of the call.
+
+type helperBind struct {
+	site ssa.CallInstruction // the call in the mutation (or in an outer helper)
+	top  ssa.Instruction     // the instruction of the mutating function itself that stands for the helper's work
+	g    *ssa.Function
+}
+
+// up maps a helper's parameter to the argument passed at the call site (other values are returned unchanged).
+func (h helperBind) up(v ssa.Value) ssa.Value {
+	if pa, ok := v.(*ssa.Parameter); ok && pa.Parent() == h.g {
+		for i, q := range h.g.Params {
+			if q == pa && i < len(h.site.Common().Args) {
+				return h.site.Common().Args[i]
+			}
+		}
+	}
+	return v
+}
+
+func isBatchPtr(t types.Type) bool { return strings.HasSuffix(t.String(), "pebble.Batch") }
+
+// batchHelperCalls lists the calls (to depth 2) from fn's nest to functions of the same package that take a batch.
+func batchHelperCalls(p *core.Program, fn *ssa.Function) []helperBind {
+	var out []helperBind
+	seen := map[*ssa.Function]bool{fn: true}
+	var scan func(f *ssa.Function, top ssa.Instruction, d int)
+	scan = func(f *ssa.Function, top ssa.Instruction, d int) {
+		for _, nf := range core.Nest(f) {
+			core.InstrsOf(nf, func(in ssa.Instruction) {
+				ci, ok := in.(ssa.CallInstruction)
+				if !ok {
+					return
+				}
+				g := core.StaticCallee(ci.Common())
+				if g == nil || !p.IsProdFunc(g) || g.Blocks == nil || g.Pkg != fn.Pkg || seen[g] {
+					return
+				}
+				takesBatch := false
+				for _, pa := range g.Params {
+					if isBatchPtr(pa.Type()) {
+						takesBatch = true
+					}
+				}
+				if !takesBatch {
+					return
+				}
+				seen[g] = true
+				t := top
+				if t == nil {
+					t = in
+				}
+				out = append(out, helperBind{site: ci, top: t, g: g})
+				if d < 2 {
+					scan(g, t, d+1)
+				}
+			})
+		}
+	}
+	scan(fn, nil, 0)
+	return out
+}
